@@ -24,6 +24,22 @@ class EFLRSetsDict(defaultdict):
 
         super().__init__(lambda: {})
 
+    def _reposition_if_empty(self, eflr_set_type: type[EFLRSet], set_name: Optional[str]) -> None:
+        """Let a set (and set type) that holds no items yet take its place from the call that is about to fill it.
+
+        An empty set is the leftover of a rejected add_* call; the order of entries is the order of sets in the file,
+        which must not depend on calls that were rejected.
+        """
+
+        if eflr_set_type not in self:
+            return
+
+        eflr_set_dict = self[eflr_set_type]
+        if set_name in eflr_set_dict and not eflr_set_dict[set_name].n_items:
+            eflr_set_dict[set_name] = eflr_set_dict.pop(set_name)
+        if not any(s.n_items for s in eflr_set_dict.values()):
+            self[eflr_set_type] = self.pop(eflr_set_type)
+
     def add_set(self, eflr_set: EFLRSet) -> None:
         """Register a new EFLRSet instance in the structure."""
 
@@ -35,6 +51,8 @@ class EFLRSetsDict(defaultdict):
 
     def try_add_set(self, eflr_set: EFLRSet) -> bool:
         """Try to register a new EFLRSet instance in the structure. Return True on success, False otherwise."""
+
+        self._reposition_if_empty(eflr_set.__class__, eflr_set.set_name)
 
         # let the set see the other sets of its type in this structure (copy numbers are unique per type, not per set)
         eflr_set.sibling_sets = self[eflr_set.__class__]
@@ -55,6 +73,8 @@ class EFLRSetsDict(defaultdict):
         Returns:
             An EFLRSet instance of given subtype and name, registered in the structure.
         """
+
+        self._reposition_if_empty(eflr_set_type, set_name)
 
         # dict mapping set names on EFLRSet (subclass) instances
         eflr_set_dict: dict[Union[str, None], AnyEFLRSet] = self[eflr_set_type]
